@@ -749,7 +749,7 @@ impl FixtureDatabase {
 
         // Check if this is a test function
         // (a fixture function named test_* already had its parameters recorded above)
-        let is_test = func_name.starts_with("test_") && fixture_decorator.is_none();
+        let is_test = func_name.starts_with("test") && fixture_decorator.is_none();
 
         if is_test {
             debug!("Found test function: {}", func_name);
